@@ -152,8 +152,8 @@ def main(argv=None):
         mine = [r for r in res if r.get("section") == si]
         rep.add_results(nm, mine, sum(1 for it in items if it["section"] == si) - len(mine), exhaustive=False)
     import superrec2.compute.reconciliation as m1, superrec2.compute.super_reconciliation as m5, superrec2.compute.unordered_super_reconciliation as m6
-    rep.functions = R.source_digest(m1.reconcile_lca, m1.reconcile_thl, m5.sreconcile_base_spfs, m5.sreconcile_extended_spfs, m5._spfs,
-                                    m5._compute_spfs_entry, m6.usreconcile_base_uspfs, m6.usreconcile_extended_uspfs, m6._uspfs, m6._compute_uspfs_entry)
+    rep.functions = R.safe_digest(lambda: R.source_digest(m1.reconcile_lca, m1.reconcile_thl, m5.sreconcile_base_spfs, m5.sreconcile_extended_spfs, m5._spfs,
+                                    m5._compute_spfs_entry, m6.usreconcile_base_uspfs, m6.usreconcile_extended_uspfs, m6._uspfs, m6._compute_uspfs_entry))
     rep.bounds = {"inputs": f"seeded: {n1} inputs 2-3 leaves (all five costs symbolic), {n2} inputs 4-5 leaves (dup, hgt, sloss symbolic, spe=0, floss=1), "
                             f"{n3} single-family inputs 2-5 leaves, {n4} plain inputs 5-10 object leaves / 3-8 species for thl vs lca",
                   "costs": "non-negative integers in the coherent region; every input also with hgt = infinity.inf (thl = lca there)"}
